@@ -18,12 +18,12 @@ KNOWN = None
 SHARD = 40
 RULE = ("histories over {init job, remove job, re-key job (statepoint setter), update_cache, restart session (new Project "
         "object), delete cache file, query through the current session, misname a job directory (corruption)} on a "
-        "universe of 4 state points: directed scenarios (the former F9 witnesses, poisoning attempts), bounded-exhaustive "
+        "universe of 5 state points (incl. the empty state point {}): directed scenarios (the former F9 witnesses, poisoning attempts), bounded-exhaustive "
         "histories over a 9-letter alphabet on 2 jobs appended to two start states (empty project / two jobs with a "
         "fresh cache file in a new session) up to length 2 (quick) or 4 (thorough), and seeded random histories of "
         "length <= 40.  After every observed step a fresh Project is observed twice (cache file in place / moved "
         "away): find_jobs(filter), len, ids by iteration, open_job(id=i).statepoint() for every listed directory, and "
-        "open_job(id=p) + statepoint() for 9 abbreviated ids p (too short, shared by 3 / 2 universe ids, unique, no match); the "
+        "open_job(id=p) + statepoint() for 10 abbreviated ids p (too short, shared by 3 / 2 universe ids, unique, no match); the "
         "decoded cache file and the value of update_cache() are recorded.  non-trivial: the history changes the "
         "workspace after a cache file exists and calls update_cache or restarts afterwards; distinct by history")
 TRUSTED = [
@@ -37,9 +37,10 @@ ASSUMPTIONS = ["single process; the cache file is either absent or a gzip JSON o
 EXHAUSTIVE = {"quick": False, "thorough": True}
 
 # ids 7f9f..., 7f8b..., 706d..., b1b4...: u0/u1 share two hex characters, u2 shares one with them
-UNIV = [{"a": 0, "b": 0}, {"a": 1, "b": 123}, {"b": {"c": 2}, "a": 0}, {"a": 1, "b": [1, 1]}]
+# u4 is the EMPTY state point (id 99914b...): falsy in Python, must be cached and served like any other
+UNIV = [{"a": 0, "b": 0}, {"a": 1, "b": 123}, {"b": {"c": 2}, "a": 0}, {"a": 1, "b": [1, 1]}, {}]
 # abbreviated ids opened in every observation: too short (""), shared by 3 / 2 ids, unique ones, no match
-ABBREVS = ["", "7", "7f", "7f9", "7f8", "70", "b", "b1b", "e"]
+ABBREVS = ["", "7", "7f", "7f9", "7f8", "70", "b", "b1b", "9", "e"]
 _HEX = re.compile(r"^[0-9a-f]{32}")
 SPF = "signac_statepoint.json"
 CACHE = os.path.join(".signac", "statepoint_cache.json.gz")
@@ -73,6 +74,9 @@ DIRECTED = [
     [["init", 0], ["init", 3], ["update"], ["restart"], ["remove", 0], ["init", 1], ["restart"], ["query"], ["update"], ["query"]],
     [["init", 0], ["update"], ["restart"], ["init", 1], ["init", 2], ["restart"], ["query"], ["remove", 0], ["query"]],
     [["init", 0], ["init", 1], ["query"], ["remove", 0], ["query"], ["init", 2], ["query"], ["remove", 1], ["query"]],
+    # the empty state point {} cached (persistently / in memory), stale, re-keyed
+    [["init", 4], ["init", 0], ["update"], ["restart"], ["query"], ["remove", 4], ["query"], ["update"], ["init", 4], ["restart"], ["query"], ["update"]],
+    [["init", 4], ["query"], ["rekey", 4, 1], ["query"], ["update"], ["rekey", 0, 4], ["rekey", 1, 4], ["restart"], ["query"], ["update"], ["update"]],
     # stale in-memory entries
     [["init", 0], ["init", 1], ["query"], ["remove", 0], ["query"], ["rekey", 1, 2], ["query"], ["update"], ["update"], ["restart"], ["query"]],
     [["init", 0], ["rekey", 0, 0], ["rekey", 0, 1], ["rekey", 1, 1], ["rekey", 2, 3], ["update"], ["restart"], ["rekey", 1, 0], ["init", 1], ["rekey", 0, 1], ["update"], ["update"]],
@@ -88,11 +92,11 @@ def _rand_history(rng, n):
             steps.append(["misname", mis[1], mis[0]])
             mis = None
         elif r < 0.24:
-            steps.append(["init", rng.randrange(4)])
+            steps.append(["init", rng.randrange(len(UNIV))])
         elif r < 0.36:
-            steps.append(["remove", rng.randrange(4)])
+            steps.append(["remove", rng.randrange(len(UNIV))])
         elif r < 0.48:
-            steps.append(["rekey", rng.randrange(4), rng.randrange(4)])
+            steps.append(["rekey", rng.randrange(len(UNIV)), rng.randrange(len(UNIV))])
         elif r < 0.66:
             steps.append(["update"])
         elif r < 0.79:
@@ -102,7 +106,7 @@ def _rand_history(rng, n):
         elif r < 0.96:
             steps.append(["query"])
         else:
-            a, b = rng.randrange(4), rng.randrange(4)
+            a, b = rng.randrange(len(UNIV)), rng.randrange(len(UNIV))
             if a != b:
                 steps.append(["misname", a, b])
                 mis = (a, b)
@@ -314,7 +318,7 @@ def run_case(desc):
         steps = run_history(root, desc)
     E = Emit()
     prelude = [(f"u8_{n}", f"Definition u8_{n} : json := {coq_json(u)}.") for n, u in enumerate(UNIV)]
-    prelude.append(("univ8", "Definition univ8 : list json := [u8_0; u8_1; u8_2; u8_3]."))
+    prelude.append(("univ8", "Definition univ8 : list json := [%s]." % "; ".join(f"u8_{n}" for n in range(len(UNIV)))))
     prelude.append(("pres8", "Definition pres8 : list str := %s." % coq_list([coq_str(p) for p in ABBREVS], "str")))
     body = coq_list([E.step(s) for s in steps], "hstep")
     flt = desc["filter"]
